@@ -1306,6 +1306,24 @@ def main(argv):
                       {"kind": "cli-depth", "program": prog, "depth": n, "second_run": (out2 + err2)[:300],
                        "rerun": "blots '%s' | blots '%s'" % (prog, ECHO)})
         break
+    # the same limit at the echo level (Coq: C06_cli_text_echo_non_object needs nesting <= 126,
+    # C06_cli_text_echo_depth_refuted): a bare array nested n deep is echoed one level deeper
+    for n in (100, 126, 127):
+        txt = "[" * n + "]" * n
+        rc1, out1, err1 = run_cli(cli, ["-i", txt, ECHO1])
+        if rc1 != 0:
+            res.violation("the CLI rejects a bare JSON array nested %d deep" % n,
+                          {"kind": "cli-depth", "input_json": txt, "program": ECHO1, "observed": (out1 + err1)[:300]})
+            break
+        rc2, out2, err2 = run_cli(cli, [ECHO], stdin_text=out1)
+        ok = rc2 == 0 and out2 == out1
+        depth_res["bare-%d" % n] = "ok" if ok else ("rejected" if "recursion limit" in err2 else "differs")
+        if ok or (n + 1 > 127 and depth_res["bare-%d" % n] == "rejected" and "C06-F31" in known):
+            continue
+        res.violation("the echo of a bare nested array is not read back (input -> output -> input)",
+                      {"kind": "cli-depth", "input_json": txt, "program": ECHO1, "depth": n,
+                       "second_run": (out2 + err2)[:300]})
+        break
     res.streams["CLI-depth"] = depth_res
 
     # ---------------------------------------------------------------- known findings
